@@ -6,7 +6,9 @@ C14 (name) and C11 (glyf/loca).
 -/
 import SfntV.Model.FontFile
 import SfntV.Proofs.FontRoundTrip
-import SfntV.Props.C12
+import SfntV.Proofs.MetricsHead
+import SfntV.Proofs.MetricsOs2
+import SfntV.Proofs.MetricsDerived
 import SfntV.Proofs.NamesTable
 import SfntV.Props.C11
 import SfntV.Props.C09b
@@ -113,7 +115,7 @@ theorem head_table (h : HeadRec) (bbox : Metrics.Rect) (loca : Int) (adj : UInt3
     ∃ H, Metrics.decodeHead (Header.patchAdj (Metrics.encodeHead (headOf h bbox loca)) adj) = .ok H ∧
       recOfHead H = codecHead h ∧ H.locaFormat = loca := by
   rw [decodeHead_patchAdj _ adj (by rw [encodeHead_length]; omega)]
-  refine ⟨_, SfntV.Props.C12.C12_head_roundtrip (headOf h bbox loca) d, ?_, rfl⟩
+  refine ⟨_, Metrics.head_roundtrip (headOf h bbox loca) d, ?_, rfl⟩
   unfold recOfHead codecHead
   simp only [headOf, time_bridge h.created hc, time_bridge h.modified hm]
 
@@ -126,7 +128,7 @@ theorem os2_table (o : Os2Rec) (x : Os2Extra) (d : Metrics.Os2Dom (os2Read o x))
     recOfOs2 (os2Read o x) = codecOs2 o := by
   have henc : Metrics.encodeOs2 (os2Of o x) = Metrics.encodeOs2 (os2Read o x) := rfl
   rw [henc]
-  refine ⟨SfntV.Props.C12.C12_os2_roundtrip _ d, ?_⟩
+  refine ⟨Metrics.os2_roundtrip _ d, ?_⟩
   have hreg := d.reg
   have hcap := d.cap0
   have hxh := d.xh0
@@ -149,7 +151,7 @@ theorem os2_table (o : Os2Rec) (x : Os2Extra) (d : Metrics.Os2Dom (os2Read o x))
 theorem post_table (p : PostRec) (hp : isInt16 p.underlinePosition) (ht : isInt16 p.underlineThickness) :
     Metrics.decodePost (Metrics.encodePost 0x00030000 (postHdrOf p)) = .ok (0x00030000, postHdrOf p) ∧
     recOfPostHdr (postHdrOf p) = codecPost p := by
-  refine ⟨SfntV.Props.C12.C12_post_header_roundtrip 0x00030000 (postHdrOf p) (Or.inr (Or.inl rfl)) ?_ hp ht, rfl⟩
+  refine ⟨Metrics.post_roundtrip 0x00030000 (postHdrOf p) (Or.inr (Or.inl rfl)) ?_ hp ht, rfl⟩
   have := toInt32_range p.italicAngle.round16
   simp only [postHdrOf]
   omega
@@ -158,7 +160,7 @@ theorem post_table (p : PostRec) (hp : isInt16 p.underlinePosition) (ht : isInt1
 theorem maxp_table (n : Nat) (ttf : List Nat) (h1 : 1 ≤ n) (h2 : n < 65536)
     (ht : ttf.length = 13 ∧ ∀ v ∈ ttf, v < 65536) :
     ∃ b, Metrics.encodeMaxp ⟨n, some ttf⟩ = .ok b ∧ Metrics.decodeMaxp b = .ok ⟨n, some ttf⟩ :=
-  SfntV.Props.C12.C12_maxp_roundtrip ⟨n, some ttf⟩ ⟨by simp only; omega, by simp only; omega⟩
+  Metrics.maxp_roundtrip ⟨n, some ttf⟩ ⟨by simp only; omega, by simp only; omega⟩
     (fun vs hvs => by
       simp only [Option.some.injEq] at hvs
       subst hvs
@@ -173,7 +175,7 @@ theorem hmtx_table (ws : List Int) (es : List Metrics.Rect) (asc desc gap rise r
       Metrics.decode hhea (some hmtx) = .ok d ∧ d.widths = ws ∧ d.ascent = asc ∧ d.descent = desc ∧
       d.lineGap = gap ∧ d.rise = rise ∧ d.run = run := by
   obtain ⟨hhea, hmtx, d, h1, h2, h3, h4, h5, h6, _, _, h9, h10⟩ :=
-    SfntV.Props.C12.C12_hmtx_widths_roundtrip ws es asc desc gap rise run hne hn hlen hw he ha hd hg hr hu
+    Metrics.makeHmtx_roundtrip ws es asc desc gap rise run hne hn hlen hw he ha hd hg hr hu
   exact ⟨hhea, hmtx, d, h1, h2, h3, h4, h5, h6, h9, h10⟩
 
 /-! ### name: the encoder emits bytes -/
